@@ -867,6 +867,22 @@ def gen_cases(rng, tier, focus, n, stream):
     return out
 
 
+def exhaustive_cases(tier, stream="exhaustive-small"):
+    """every history up to length 2 (thorough: 3) over a 13-call alphabet on three colliding paths, from five two-layer states"""
+    import itertools
+    alphabet = [("W", 0, "a", b"\x01"), ("W", 0, "a/b", b"\x02"), ("W", 0, "a/b/", b"\x03"), ("C", 0, "a"), ("C", 0, "a/b"),
+                ("R", 0, "a"), ("R", 0, "a/b"), ("E", 0, "a/b/"), ("F", 0, "a"), ("G", 0, "a"),
+                ("L", 0, "a", "PA"), ("L", 0, "", "PA"), ("S", 0, "")]
+    states = [[[], []], [[("a", b"\x07")], []], [[("a/b", b"\x07")], [("a", None)]], [[("a", None)], [("a", b"\x08")]],
+              [[("a/b", None)], [("a/b", b"\x09")]]]
+    out = []
+    for st in states:
+        for n in range(1, (2 if tier == "quick" else 3) + 1):
+            for h in itertools.product(alphabet, repeat=n):
+                out.append(Case(render_case(FsCase(4, 0, st, list(h)), fresh_base()), stream))
+    return out
+
+
 def shrink_case(case):
     base, c = parse_case(case.line)
     # fewer operations
